@@ -147,10 +147,13 @@ def validate_input_value_impl(
                     if hide_suggestions or not isinstance(field_name, str)
                     else did_you_mean(suggestion_list(field_name, list(field_defs)))
                 )
+                field_str = (
+                    field_name if isinstance(field_name, str) else inspect(field_name)
+                )
                 report_invalid_value(
                     on_error,
                     f"Expected value of type '{type_}' not to include unknown"
-                    f" field '{field_name}'"
+                    f" field '{field_str}'"
                     + (f".{suggestion} Found" if suggestion else ", found")
                     + f": {inspect(input_value)}.",
                     path,
